@@ -283,7 +283,7 @@ def gen_recursive(r, depth=None):
   """One recursive program around a depth; returns (program, family)."""
   d = depth if depth is not None else r.choice(DEPTHS)
   family = r.choice(['counter', 'reach', 'tc', 'cycle2', 'cycle3', 'sp', 'random', 'random',
-                     'bagpaths', 'helper', 'ring', 'ring', 'spw', 'countpaths'])
+                     'bagpaths', 'helper', 'ring', 'ring', 'spw', 'countpaths', 'selfloop2'])
   around = max(1, d + r.choice([-2, -1, 0, 0, 1, 1, 2, 3]))
   preds = []
   main = None
@@ -352,6 +352,18 @@ def gen_recursive(r, depth=None):
         rule([C(0)], aggval=C(0)),
         rule([V('y')], [['D', [V('x')], 'd'], ['E', [V('x'), V('y')], None]], aggval=['e', 'd', '+', 1])]})
     main = 'D'
+  elif family == 'selfloop2':
+    # two members, one of them also recursive through itself: only that one cuts the component,
+    # so which member carries the annotation decides the unfolding style
+    preds.append({'name': 'E', 'arity': 2, 'kind': 'edb', 'rows': chain(r, around + 2), 'rules': []})
+    kd = r.choice(['distinct', 'distinct', 'bag'])
+    preds.append({'name': 'H', 'arity': 1, 'kind': 'distinct', 'rules': [
+        rule([C(0)]),
+        rule([V('y')], [['Dd', [V('y')], None]])]})
+    preds.append({'name': 'Dd', 'arity': 1, 'kind': 'distinct', 'rules': [
+        rule([V('x')], [['H', [V('x')], None]], [['x', '==', C(0)]]),
+        rule([V('y')], [['Dd', [V('x')], None], ['E', [V('x'), V('y')], None]])]})
+    main = r.choice(['H', 'Dd'])
   elif family == 'spw':
     # weighted shortest paths: recursion through Min= with a value built from two variables
     n = around
@@ -465,8 +477,8 @@ def gen_recursive(r, depth=None):
       preds.append(zp)
   recursive = {}
   if d != 8 or r.random() < 0.3:
-    ann = r.choice(members) if family in ('cycle2', 'cycle3', 'random', 'helper', 'ring') else main
-    if family not in ('cycle2', 'cycle3', 'random', 'helper', 'ring'):
+    ann = r.choice(members) if family in ('cycle2', 'cycle3', 'random', 'helper', 'ring', 'selfloop2') else main
+    if family not in ('cycle2', 'cycle3', 'random', 'helper', 'ring', 'selfloop2'):
       ann = [m for m in members if m in ('N', 'R', 'TC', 'D', 'W')][0]
     recursive[ann] = d
     # two annotated members in one component: the smallest annotated name decides
